@@ -195,17 +195,17 @@ def r4(c):
     pv = Provenance(fn)
 
     def ren(s):
-        s = s.replace('"', "'")
+        s = s.replace('"', "'").replace("registry_connector.get()[self.vendor].exit", "block_exit")
         t = {"rule['attrs']['global']": "global", "rule['attrs']['order_reverse']": "order_reverse", "direct_matched": "direct_matched",
              "rule['attrs']['reverse_regexp'].match(row)": "reverse_matched", "cmd_direct": "cmd_direct", "block_exit": "block_exit",
              "block_exit == row": "is_exit", "row == block_exit": "is_exit"}
         return t.get(s, s)
-    env = G.GuardEnv(rename=ren)
+    env = G.GuardEnv(rename=ren, subst=gm.aliases())
     # scope filter
     conts = [n for n in walk_no_nested(fn) if isinstance(n, ast.Continue)]
     ok = len(conts) == 1
     if ok:
-        f = gm.formula(conts[0], env)
+        f = gm.formula(conts[0], env, alias=True)
         at = G.atoms(f)
         ok = any("scope" in a and " in " in a for a in at) and any("is None" in a for a in at)
     c.check("C08.R4", ok, repo.loc(m, conts[0] if conts else fn), "get_order/scope-filter", "scoped rules are not skipped exactly when the caller's scope is not listed", key_text="scope")
@@ -213,7 +213,7 @@ def r4(c):
     gapp = [x for x in calls_in(fn) if isinstance(x.func, ast.Attribute) and x.func.attr == "append" and norm(x.func.value) == "children"]
     ok = len(gapp) == 1
     if ok:
-        f = gm.formula(gapp[0], env)
+        f = gm.formula(gapp[0], env, alias=True)
         f2 = G.And(*[g for g in (f[1:] if f[0] == "and" else [f]) if not any("scope" in a for a in G.atoms(g))])
         ok = G.equivalent(f2, G.Atom("global"))
     c.check("C08.R4", ok, repo.loc(m, gapp[0] if gapp else fn), "get_order/global-handed-down", "%global ordering rules are not (unconditionally) handed down to the children", key_text="global")
@@ -258,7 +258,7 @@ def r4(c):
     c.check("C08.R4", len(rets) >= 1, repo.loc(m, fn), "get_order/returns", "no return", key_text="no-return")
     # children of the matched rule handed down
     ext = [x for x in calls_in(b1) if isinstance(x.func, ast.Attribute) and x.func.attr == "extend" and norm(x.func.value) == "children"]
-    ok = bool(ext) and "children" in norm(ext[0].args[0]) and "raw_rule" in norm(ext[0].args[0])
+    ok = bool(ext) and "children" in norm(ext[0].args[0]) and ("raw_rule" in norm(ext[0].args[0]) or norm(ext[0].args[0]).replace('"', "'").startswith("rule['children']"))
     c.check("C08.R4", ok, repo.loc(m, b1), "get_order/children-of-match", "children rules of a matching rule are not handed down", key_text="ext")
 
 
